@@ -1,110 +1,11 @@
 /-
-Helper lemmas for C16 (and C13): the decoders of `Model/Message.lean` never produce `oob`, and
-whatever they accept re-encodes to a prefix of the input.  Core Lean only.
+Helper lemmas for C16: whatever the decoders of `Model/Message.lean` accept re-encodes to a prefix
+of the input.  (Never-`oob` lemmas: `Lemmas/C16Total.lean`.)  Core Lean only.
 -/
-import EphVerif.Lemmas.C15Bytes
+import EphVerif.Lemmas.C16Total
 
 namespace EphVerif.Message
 open EphVerif.Gen.C15
-
-/-! ### no read leaves the input span -/
-
-theorem parseAnnounce_ne_oob (d : Bytes) (pow : Bool) : parseAnnounce d pow ≠ .oob := by
-  unfold parseAnnounce
-  simp only [kChunkIdSize, kPeerIdSize]
-  cases pow <;> simp only [Bool.false_eq_true, if_false, if_true]
-  all_goals
-    split
-    · simp
-    · apply chk_rdU32_ne_oob (by omega); intro ttl _
-      apply chk_rdU32_ne_oob (by omega); intro el _
-      apply chk_rdU32_ne_oob (by omega); intro ml _
-      apply chk_rdU32_ne_oob (by omega); intro al _
-      split
-      · simp
-      · apply chk_rd_ne_oob (by omega); intro c _
-        apply chk_rd_ne_oob (by omega); intro p _
-        apply chk_rd_ne_oob (by omega); intro e _
-        apply chk_rd_ne_oob (by omega); intro m _
-        apply chk_rd_ne_oob (by omega); intro s _
-        first
-          | (apply chk_rdU64_ne_oob (by omega); intro n _; simp)
-          | simp
-
-theorem decodePayloadV1_ne_oob (t : Nat) (d : Bytes) : decodePayloadV1 t d ≠ .oob := by
-  unfold decodePayloadV1
-  have hc : kChunkIdSize = 32 := rfl
-  have hp : kPeerIdSize = 32 := rfl
-  dsimp only
-  split
-  · exact map_ne_oob (parseAnnounce_ne_oob d false)
-  split
-  · split
-    · simp
-    · apply chk_rd_ne_oob (by omega); intro c _
-      apply chk_rd_ne_oob (by omega); intro r _
-      simp
-  split
-  · split
-    · simp
-    · apply chk_rdU32_ne_oob (by omega); intro ttl _
-      apply chk_rdU32_ne_oob (by omega); intro dl _
-      split
-      · simp
-      · apply chk_rd_ne_oob (by omega); intro c _
-        apply chk_rd_ne_oob (by omega); intro data _
-        simp
-  split
-  · split
-    · simp
-    · apply chk_rdU8_ne_oob (by omega); intro flag _
-      split
-      · simp
-      · apply chk_rd_ne_oob (by omega); intro c _
-        apply chk_rd_ne_oob (by omega); intro p _
-        simp
-  split
-  · split
-    · simp
-    · apply chk_rdU32_ne_oob (by omega); intro pub _
-      apply chk_rdU64_ne_oob (by omega); intro nonce _
-      apply chk_rdU8_ne_oob (by omega); intro rv _
-      simp
-  split
-  · split
-    · simp
-    · apply chk_rdU8_ne_oob (by omega); intro flag _
-      split
-      · simp
-      · apply chk_rdU8_ne_oob (by omega); intro nv _
-        apply chk_rdU32_ne_oob (by omega); intro pub _
-        simp
-  · simp
-
-theorem decode_ne_oob (buf : Bytes) : decode buf ≠ .oob := by
-  unfold decode
-  split
-  · simp
-  · apply chk_rdU8_ne_oob (by omega); intro v _
-    apply chk_rdU8_ne_oob (by omega); intro t _
-    split
-    · simp
-    · apply map_ne_oob
-      split
-      · exact map_ne_oob (parseAnnounce_ne_oob _ true)
-      · exact decodePayloadV1_ne_oob _ _
-
-theorem decodeSigned_ne_oob (mac : Bytes → Bytes → Bytes) (buf key : Bytes) : decodeSigned mac buf key ≠ .oob := by
-  unfold decodeSigned spanFirst spanLast
-  have hd : kDigestSize = 32 := rfl
-  split
-  · simp
-  · dsimp only
-    rw [if_pos (by omega), if_pos (by omega)]
-    simp only [chk_some]
-    split
-    · simp
-    · exact decode_ne_oob _
 
 /-! ### accepted fields are verbatim: re-encoding gives a prefix -/
 
